@@ -128,7 +128,42 @@ def key_file_bytes(k):
     return ("{\n" + ",\n".join(parts) + "\n}").encode("utf-8")
 
 
+class Interner:
+    """names for repeated Coq sub-terms (keys, items, strings): the definitions go into coq_eval's prelude,
+    the expressions refer to them by name -- coqc spends its time parsing numerals, not computing"""
+
+    def __init__(self):
+        self.names = {}
+        self.defs = []
+
+    def ref(self, text, ty=None):
+        if text not in self.names:
+            n = "x%d" % len(self.names)
+            self.names[text] = n
+            self.defs.append("Definition %s%s := %s." % (n, (" : " + ty) if ty else "", text))
+        return self.names[text]
+
+    def prelude(self):
+        return "\n".join(self.defs)
+
+
+INTERN = None       # set by a check to an Interner to turn interning on
+
+
+def ib(s):
+    """bytes literal, interned when interning is on"""
+    t = cb(s)
+    if INTERN is not None and len(s) > 3:
+        return INTERN.ref(t, "bytes")
+    return t
+
+
 def coq_key(k):
+    t = _coq_key(k)
+    return INTERN.ref(t, "key") if INTERN is not None else t
+
+
+def _coq_key(k):
     return "{| key_scheme := %s; key_inc := %s; key_guid := %s; key_issued := %s; key_value := %s |}" % (
         cb(k["authorizationScheme"]), copt(vplib.cN(k["incarnationId"]) if k.get("incarnationId") is not None else None, "N"),
         cb(k["guid"]), cb(k["issued"]), cb(k["key"]))
@@ -155,7 +190,8 @@ class ItemTable:
     def coq(self, item):
         if item is None:
             return "(@None item)"
-        return "(Some {| it_id := %s; it_mode := %s; it_body := %d%%N |})" % (cb(item["id"]), cb(item["mode"]), self.index(item))
+        t = "{| it_id := %s; it_mode := %s; it_body := %d%%N |}" % (cb(item["id"]), cb(item["mode"]), self.index(item))
+        return "(Some %s)" % (INTERN.ref(t, "item") if INTERN is not None else t)
 
 
 def doc_json(d):
@@ -181,9 +217,9 @@ def coq_doc(d, items):
         rules = "(Some {| r_imds := %s; r_ws := %s; r_ga := %s |})" % (
             items.coq(r.get("imds")), items.coq(r.get("wireserver")), items.coq(r.get("hostga")))
     return "{| d_version := %s; d_state := %s; d_enabled := %s; d_guid := %s; d_rules := %s |}" % (
-        cb(d["version"]), copt(cb(d["state"]) if d.get("state") is not None else None, "bytes"),
+        cb(d["version"]), copt(ib(d["state"]) if d.get("state") is not None else None, "bytes"),
         copt(vplib.cbool(d["enabled"]) if d.get("enabled") is not None else None, "bool"),
-        copt(cb(d["guid"]) if d.get("guid") is not None else None, "bytes"), rules)
+        copt(ib(d["guid"]) if d.get("guid") is not None else None, "bytes"), rules)
 
 
 def coq_answers(status_doc, local, acquire, store, readback, attest, items):
